@@ -44,6 +44,7 @@ mod __verif_kani_etc1 {
 
     #[kani::proof]
     #[kani::unwind(260)]
+    #[kani::solver(kissat)]
     fn check_etc1_tile_8x8() {
         // bound: one fully symbolic block at any of the four block positions, the other three zero
         let blk: [u8; 8] = kani::any();
@@ -75,6 +76,7 @@ mod __verif_kani_etc1 {
 
     #[kani::proof]
     #[kani::unwind(260)]
+    #[kani::solver(kissat)]
     fn check_etc1a4_tile_8x8() {
         let blk: [u8; 16] = kani::any();
         let at: usize = kani::any();
@@ -102,5 +104,13 @@ mod __verif_kani_etc1 {
             }
             Err(e) => { std::mem::forget(e); assert!(false, "exact_size_payload_is_accepted"); }
         }
+    }
+
+    #[kani::proof]
+    #[kani::unwind(260)]
+    fn smoke_etc1_concrete() {
+        let data = [0u8; 32];
+        let r = decode(&data, 8, 8, false);
+        match r { Ok(bmp) => assert!(bmp.len() == 256, "len"), Err(e) => { std::mem::forget(e); assert!(false, "ok"); } }
     }
 }
